@@ -253,23 +253,30 @@ def _twice(case):
     from harness import c04_handlers as H
 
     def render(utf8, verbosity):
+        # utf8 = (standard output, error output): the two streams of an I/O need not have the same capability
         io = BufferedIO()
         io.set_verbosity(verbosity)
-        io.output._supports_utf8 = utf8
-        io.error_output._supports_utf8 = utf8
+        io.output._supports_utf8 = utf8[0]
+        io.error_output._supports_utf8 = utf8[1]
         try:
             H.raise_it({"type": "RuntimeError", "msg": "plain"})
         except RuntimeError as e:
             ExceptionTrace(e).render(io)
         return io.fetch_output() + io.fetch_error()
 
+    kinds = [(True, True), (True, False), (False, True), (False, False)]
     for verbosity in (DEBUG, 1):
-        ExceptionTrace._FRAME_SNIPPET_CACHE.clear()
-        render(True, verbosity)
-        again = render(False, verbosity)
-        ExceptionTrace._FRAME_SNIPPET_CACHE.clear()
-        if again != render(False, verbosity):
-            diffs.append("error trace after a render for another kind of output (verbosity %d)" % verbosity)
+        for first in kinds:
+            for second in kinds:
+                if first == second:
+                    continue
+                ExceptionTrace._FRAME_SNIPPET_CACHE.clear()
+                render(first, verbosity)
+                again = render(second, verbosity)
+                ExceptionTrace._FRAME_SNIPPET_CACHE.clear()
+                if again != render(second, verbosity):
+                    diffs.append("error trace for an I/O with UTF-8 support %s after a render for one with %s "
+                                 "(verbosity %d)" % (second, first, verbosity))
     return {"diffs": diffs}
 
 
